@@ -30,6 +30,9 @@ props["C15"] = ("Bounded convergence: every state discovered by the BFS of small
 props["C16"] = ("Shadow accounting independent of the library's Inflights on every leader step: size of every produced MsgApp, number and bytes of outstanding entry-bearing appends per streaming follower, silence towards followers awaiting a snapshot, and the uncommitted-size quota at every proposal (evaluated where the library's estimate is exact); limits 0/1/tiny/unlimited, entries smaller and larger than the limits.", "§7 C16")
 props["C17"] = ("Tick-driven scripted scenarios (ElectionTick 3, per-node pinned timeouts, extra ticks as deviations) plus dueling BFS with PreVote: candidate transitions need a delivered pre-vote joint majority for that very term (or MsgTimeoutNow); MsgPreVote never changes term/vote; in-lease vote requests are ignored (harness tick count >= raft's); a CheckQuorum leader is gone within 2 election timeouts of last quorum contact.", "§7 C17")
 props["C20"] = ("Every log of every node is compared, whenever it changes, with the harness's own account of proposals: unknown payloads, multiplicities above the number of deliveries to an accepting leader, entries after ErrProposalDropped, empty entries beyond one no-op per term plus neutralisable conf proposals, auto-leave entries outside joint auto-leave configs, batch adjacency/order, bit-for-bit type and payload at the accepting leader.", "§7 C20")
+NODE = " The goroutine/channel front end (node.go) is covered by a second explorer: inside a testing/synctest bubble every sequence of client operations up to a length bound (from roots: fresh, leader, follower, single voter, leader removing itself, follower being removed; sync and async storage; PreVote+CheckQuorum) is run against a real raft.Node, one operation at a time, and after every operation the state behind the Node, everything it handed out and every return value must equal a reference RawNode driven by the same operations."
+for _p in ("C05", "C10", "C20"):
+    props[_p] = (props[_p][0] + NODE, props[_p][1] + ", §16")
 props["C19"] = ("Every explored state is computed twice by independent executions of the same path (incrementally through clones and from scratch on fresh objects) and the state key and a running hash over the exact bytes of every Ready, API result and node dump must agree; every job additionally runs in two separate worker processes whose digests over all (key, output hash) pairs must agree. Scenarios include 9-peer groups (beyond on-stack fast paths). Map iteration order cannot be enumerated; it is exercised by repetition (stated in the evidence).", "§7 C19, §15.2")
 NOT_YET = {
  "C15": "check not built yet in this revision (bounded convergence suffix planned, DESIGN §7)",
@@ -69,6 +72,7 @@ m = {
    "add_only": True,
  },
  "engines": [
+   {"name": "nodex", "path": "/verif/nodex", "serves_properties": ["C05", "C10", "C20"], "kind_free_text": "hand-written explicit-state explorer of the real raft.Node goroutine (node.go) under testing/synctest: breadth-first over client operation sequences, replay-based successors, differential oracle against RawNode"},
    {"name": "raftmc", "path": "/verif/mc", "serves_properties": [p for p in sorted(props) if p not in ("C12", "C13", "C18")], "kind_free_text": "hand-written explicit-state explorer over the real RawNode/MemoryStorage: E-BFS (all interleavings) and deviation-bounded D-DFS; successors by copy-on-write clones validated against full replays"},
  ],
  "checks": checks,
